@@ -504,6 +504,7 @@ static void a_exec(const plan_t *p)
 static void a_gen(prng_t *r, int mode, plan_t *p)
 {
     p->cfg[CF_DECL] = DECL_OF_INDEX();    /* one run in five starts from the initializer macros */
+    p->cfg[CF_REUSE] = REUSE_OF_INDEX();  /* one run in six: the allocator hands a freed block out again at once */
     int small = prng_chance(r, 1, 5);
     int nops = small ? 2 + (int)prng_below(r, 7) : 8 + (int)prng_below(r, 42);
     int faults = mode == 14 && prng_chance(r, 1, 4), boundary = prng_chance(r, 1, 3);
